@@ -1579,6 +1579,48 @@ impl<'a, C: Crypto> TransportRunner<'a, C> {
         S: NetworkSend,
     {
         let result = self.decode_packet(packet);
+
+        #[cfg(feature = "verif")]
+        {
+            use crate::verif::RxVerdict;
+
+            let verdict = match &result {
+                Ok(new_exchange) => {
+                    let meta = MessageMeta::from(&packet.header.proto);
+
+                    if meta.is_standalone_ack() {
+                        RxVerdict::StandaloneAck
+                    } else if meta.is_sc_status()
+                        && matches!(
+                            Self::is_close_session(&mut packet.buf[packet.payload_start..]),
+                            Ok(true)
+                        )
+                    {
+                        RxVerdict::CloseSession
+                    } else {
+                        RxVerdict::Processed {
+                            new_exchange: *new_exchange,
+                        }
+                    }
+                }
+                Err(e) => match e.code() {
+                    ErrorCode::Duplicate => RxVerdict::Duplicate,
+                    ErrorCode::NoSpaceSessions => RxVerdict::NoSpaceSessions,
+                    ErrorCode::NoSpaceExchanges => RxVerdict::NoSpaceExchanges,
+                    ErrorCode::NoExchange => RxVerdict::NoExchange,
+                    ErrorCode::NoSession => RxVerdict::NoSession,
+                    _ => RxVerdict::Error,
+                },
+            };
+
+            crate::verif::emit(crate::verif::Event::Rx {
+                peer: packet.peer,
+                wire_sess_id: packet.header.plain.sess_id,
+                ctr: packet.header.plain.ctr,
+                verdict,
+            });
+        }
+
         match result {
             Err(e) if matches!(e.code(), ErrorCode::Duplicate) => {
                 if packet.header.plain.is_group_session() {
